@@ -94,7 +94,8 @@ class Parser:
     @smiles.setter
     def smiles(self, string: str):
         """Set the SMILES string for the parser and reset"""
-        self._string = str(string.strip())  # strip leading/trailing whitespace
+        # strip leading/trailing (ASCII) whitespace
+        self._string = str(string.strip(" \t\n\r\x0b\x0c"))
         self._check_smiles()
 
         # Reset all the defaults for the parser
@@ -218,11 +219,11 @@ class Parser:
             if len(self._string[idx + 1 :]) < 2:
                 raise InvalidSmilesString("No ring index found following %")
 
-            try:
-                return int(self._string[idx + 1 : idx + 3]) - 1
-
-            except ValueError:
+            label = self._string[idx + 1 : idx + 3]
+            if not all(digit in "0123456789" for digit in label):
                 raise InvalidSmilesString("Integer >9 not found following %")
+
+            return int(label) - 1
 
         raise InvalidSmilesString(
             f"Could not get the ring index {curr_char} "
@@ -420,6 +421,12 @@ class Parser:
                 if self.n_atoms == 0:
                     raise InvalidSmilesString("Ring bond before any atom")
 
+                if self._string[i - 1] == "(" or (
+                    self._string[i - 1] in bond_order_symbols + ["/", "\\"]
+                    and self._string[i - 2] == "("
+                ):
+                    raise InvalidSmilesString("Ring bond must precede a branch")
+
                 ring_idx = self._parse_ring_idx(idx=i)
 
                 if char == "%":
@@ -535,7 +542,7 @@ def atomic_charge(string):
             continue
 
         # +3 or +2 or -2 etc.
-        if next_char(string, i).isdigit():
+        if next_char(string, i) in tuple("0123456789"):
             return sign * int(string[i + 1])
 
         # ++  or --
@@ -593,7 +600,7 @@ def atomic_n_hydrogens(string):
     for i, item in enumerate(string):
         if item == "H":
             # e.g. [CH3]  where rest = H3  or [OH-]
-            if next_char(string, i).isdigit():
+            if next_char(string, i) in tuple("0123456789"):
                 return int(string[i + 1])
 
             # e.g. [OH]
